@@ -12,6 +12,7 @@ from lib import VERIF, WORK, REPO
 
 SRC = os.path.join(REPO, "autosar-data", "src")
 BASELINE = os.path.join(VERIF, "checks", "locks_baseline.json")
+LAST_SITES = None   # the site-name snapshot taken by analyse() right after the harness build
 LOCK_CALL = re.compile(r"\.(read|write|try_read|try_write|try_read_for|try_write_for)\(")
 FN_RE = re.compile(r"^\s*(?:pub(?:\([^)]*\))?\s+)?(?:const\s+)?(?:unsafe\s+)?fn\s+([A-Za-z0-9_]+)")
 
@@ -42,6 +43,13 @@ class Sites:
                     k += n
         self.cache[fname] = table
         return table
+
+    def snapshot(self):
+        """read every source file now (right after the harness build), so that later edits of /repo do not change the names"""
+        for f in sorted(os.listdir(SRC)):
+            if f.endswith(".rs"):
+                self._load(f)
+        return self
 
     def name(self, site):
         # site = file:line:kind
@@ -202,6 +210,7 @@ def analyse(ctx, avh, tier, seed, tag):
     if verd is None:
         return None
     sites = Sites()
+    sites.snapshot()
     diags = [diagnose(i, sites) for i in insts]
     # the untrusted diagnosis must agree with the kernel-evaluated criteria (otherwise the edge names would be meaningless)
     dis = []
@@ -210,6 +219,8 @@ def analyse(ctx, avh, tier, seed, tag):
         if mine != v[:4]:
             dis.append("%s coq=%s diagnosis=%s" % (i.key, v[:4], mine))
     ctx.oblige("diagnosis:python edge diagnosis agrees with the Coq verdicts on every trace", not dis, "; ".join(dis[:5]))
+    global LAST_SITES
+    LAST_SITES = sites
     return insts, verd, diags
 
 
@@ -389,37 +400,6 @@ def dist(insts):
 TRUSTED = ["Coq 8.16.1 kernel incl. vm_compute", "hook H2 (autosar-data/src/verif_shim.rs) reports acquisitions / releases faithfully",
            "harness/src/locks.rs (scenario builder, operation table), checks/locks_common.py (trace -> Gallina text)",
            "rustc #[track_caller] locations; Python site naming (file::fn#k) used only to name edges"]
-
-
-if __name__ == "__main__":
-    # maintenance entry points:  baseline | dump
-    cmd = sys.argv[1] if len(sys.argv) > 1 else "dump"
-    ctx = lib.Ctx("locks-tool", "quick", 1)
-    avh = lib.harness_build(ctx, hooks=True)
-    res = analyse(ctx, avh, "quick", 1, "tool")
-    insts, verd, diags = res
-    if cmd == "baseline":
-        json.dump(make_baseline(insts, verd, diags), open(BASELINE, "w"), indent=1, sort_keys=True)
-        print("baseline written: %d instances" % len(insts))
-    else:
-        se, oe = {}, {}
-        for i, v, d in zip(insts, verd, diags):
-            for e in d["self_edges"]:
-                se.setdefault(e, []).append(i.key)
-            for e in d["order_edges"]:
-                oe.setdefault(e, []).append(i.key)
-        print("== self edges")
-        for e in sorted(se):
-            print(e, "   <=", se[e][:3])
-        print("== order edges")
-        for e in sorted(oe):
-            print(e, "   <=", len(oe[e]), oe[e][:2])
-        print("== two_phase by class")
-        cl = {}
-        for i, v in zip(insts, verd):
-            cl.setdefault(i.cls, []).append(v[3])
-        for c in sorted(cl):
-            print(c, "%d/%d" % (sum(cl[c]), len(cl[c])))
 
 
 # ----------------------------------------------------------------------------- scheduler exploration (C15, C16)
@@ -615,3 +595,34 @@ def coq_confirm_deadlock(run, nthreads, tag):
     text = COQ_HDR + "Eval vm_compute in stuck_after [%s] [%s].\n" % ("; ".join("[" + "; ".join(t) + "]" for t in ts), "; ".join(sch))
     rc, out, dt = lib.coq_eval("locks_replay_" + tag, text, timeout=300)
     return rc == 0 and re.search(r"=\s*true", out) is not None, out[-300:]
+
+
+if __name__ == "__main__":
+    # maintenance entry points:  baseline | dump
+    cmd = sys.argv[1] if len(sys.argv) > 1 else "dump"
+    ctx = lib.Ctx("locks-tool", "quick", 1)
+    avh = lib.harness_build(ctx, hooks=True)
+    res = analyse(ctx, avh, "quick", 1, "tool")
+    insts, verd, diags = res
+    if cmd == "baseline":
+        json.dump(make_baseline(insts, verd, diags), open(BASELINE, "w"), indent=1, sort_keys=True)
+        print("baseline written: %d instances" % len(insts))
+    else:
+        se, oe = {}, {}
+        for i, v, d in zip(insts, verd, diags):
+            for e in d["self_edges"]:
+                se.setdefault(e, []).append(i.key)
+            for e in d["order_edges"]:
+                oe.setdefault(e, []).append(i.key)
+        print("== self edges")
+        for e in sorted(se):
+            print(e, "   <=", se[e][:3])
+        print("== order edges")
+        for e in sorted(oe):
+            print(e, "   <=", len(oe[e]), oe[e][:2])
+        print("== two_phase by class")
+        cl = {}
+        for i, v in zip(insts, verd):
+            cl.setdefault(i.cls, []).append(v[3])
+        for c in sorted(cl):
+            print(c, "%d/%d" % (sum(cl[c]), len(cl[c])))
